@@ -123,8 +123,9 @@ def anchored_line_stats(files, executed):
 # --------------------------------------------------------------------------
 def run_check(prop_id, tier, seed, replay=None, workers=None, keep=False):
     t0 = time.time()
-    bootstrap.ensure_deps()
-    sys.path.insert(0, bootstrap.VERIF)
+    os.environ.setdefault("OMP_NUM_THREADS", "1")
+    os.environ.setdefault("MKL_NUM_THREADS", "1")
+    bootstrap.setup_env()
     mod = importlib.import_module(f"props.{prop_id}")
 
     if replay:
